@@ -36,7 +36,7 @@ def run_ledger_check(prop, tier, replay, profile, oracles, rule_extra, quick=(3,
         else:
             new_fails.append(f)
 
-    by_row = {(r["hist"], r["wallet"]): r for r in rows}
+    by_row = {(r["seed"], r["wallet"]): r for r in rows}
     for f in new_fails[:3]:
         row = by_row.get(tuple(f["row"]))
         V.violation({"property": prop, "kind": "oracle", "what": f["what"], "step": f.get("step"),
@@ -48,7 +48,7 @@ def run_ledger_check(prop, tier, replay, profile, oracles, rule_extra, quick=(3,
                      "correspondence": "Ledger.step / Ledger.trace (coq/theories/Ledger.v) vs libwallet api_impl::{owner,foreign}, internal::{updater,tx,selection} on real LMDB wallets",
                      "theorems_no_longer_tied": proof["theorems"], "n_divergences": len(div),
                      "first_divergence": {k: d[k] for k in ("hist", "seed", "wallet", "step", "op", "what")},
-                     "row": by_row.get((d["hist"], d["wallet"]))}, no_input=True)
+                     "row": by_row.get((d["seed"], d["wallet"]))}, no_input=True)
 
     kinds = collections.Counter()
     nontrivial = set()
